@@ -375,6 +375,8 @@ namespace c10
     if(gi.file_unmodified && gi.src == "file" && t.flag(1, 3)) { mode = AdaptMode::chart; geometry = false; }
     c.desc.set("depth", depth); c.desc.set("adapt", mode == AdaptMode::chart ? "chart" : "none");
     c.label("depth:" + std::to_string(depth)); c.label(mode == AdaptMode::chart ? "adapt:chart" : "adapt:none");
+    // which geometric claims this case can carry (run_levels applies the same rule)
+    { c.label(!geometry ? "geom:topology-only" : (orientation_margin_ok(base, depth, 1e-9L) ? "geom:volume+orientation" : "geom:volume-only")); }
     c.nontrivial = nontrivial || nparts > 0;
     c.op = "refine"; c.announce();
     for(size_t k = 0; k < specs.size(); ++k) L.node->add_mesh_part("gen" + std::to_string(k), build_part<Shape_>(specs[k], *L.node->get_mesh()));
